@@ -2334,6 +2334,12 @@ impl<T: Storage> Raft<T> {
                 {
                     return Ok(());
                 }
+                // A granted pre-vote echoes the term it was requested for, i.e. our term + 1.
+                // One that carries our current term answers an earlier pre-campaign (we have
+                // moved on by a term since) and says nothing about the term we ask for now.
+                if self.state == StateRole::PreCandidate && !m.reject && m.term <= self.term {
+                    return Ok(());
+                }
 
                 self.poll(m.from, m.get_msg_type(), !m.reject);
                 self.maybe_commit_by_vote(&m);
